@@ -265,6 +265,7 @@ func init() {
 			return m.osErr("injected unlink failure")
 		}
 		delete(m.os().files, name)
+		delete(m.os().bolt, name) // a database file that is removed takes its contents with it
 		m.ev("unlink", name, 0, 0, true, "")
 		return iface{}
 	})
@@ -273,8 +274,18 @@ func init() {
 		name := strOf(a[0])
 		if _, ok := m.os().files[name]; ok {
 			delete(m.os().files, name)
+			delete(m.os().bolt, name)
 			m.ev("unlink", name, 0, 0, true, "")
 		}
+		return iface{}
+	})
+	// os.WriteFile: used by harnesses to plant a file (e.g. the remains of an interrupted
+	// initialisation). No trace event: the planted file is part of the initial state.
+	add("os.WriteFile", func(fr *frame, a []value) value {
+		m := fr.m
+		name := strOf(a[0])
+		m.os().files[name] = append([]value{}, a[1].([]value)...)
+		delete(m.os().bolt, name)
 		return iface{}
 	})
 	add("os.Rename", func(fr *frame, a []value) value {
@@ -367,6 +378,9 @@ func init() {
 	add("harness/vrt.OSFaults", func(fr *frame, a []value) value {
 		fr.m.os().faults = int(a[0].(*Term).Val)
 		return nil
+	})
+	add("harness/vrt.OSFaultsLeft", func(fr *frame, a []value) value {
+		return BV(64, uint64(fr.m.os().faults))
 	})
 	add("harness/vrt.OSFileLen", func(fr *frame, a []value) value {
 		d, ok := fr.m.os().files[strOf(a[0])]
